@@ -2,5 +2,5 @@
 # builds the driver from the extracted model; run from /verif/ocaml
 set -e
 cd "$(dirname "$0")"
-ocamlfind ocamlopt -O2 -w -a -package str model.mli model.ml common.ml core_cases.ml text_cases.ml checks.ml driver.ml -o driver 2>/dev/null || \
-ocamlfind ocamlopt -w -a model.mli model.ml common.ml core_cases.ml text_cases.ml checks.ml driver.ml -o driver
+ocamlfind ocamlopt -O2 -w -a -package str model.mli model.ml common.ml core_cases.ml text_cases.ml text_checks.ml checks.ml driver.ml -o driver 2>/dev/null || \
+ocamlfind ocamlopt -w -a model.mli model.ml common.ml core_cases.ml text_cases.ml text_checks.ml checks.ml driver.ml -o driver
